@@ -262,6 +262,11 @@ def run_unit(unit, tier, seed, replay=None):
         except Exception as e:  # partial file
             res["reports"].append({"unit": os.path.basename(f), "finished": False, "parse_error": str(e)})
     m = re.search(r"^(panic: .*|fatal error: .*|.*ERROR: AddressSanitizer.*)$", text, re.M)
+    if not m and p.returncode not in (0, 124, 137):
+        # a zap Fatal of the code under test ends the process without a panic line
+        f = re.search(r"^\[[^\]]*\] \[FATAL\] (\[[^\]]*\] \[\"[^\"]*\"\])", text, re.M)
+        if f:
+            m = re.match(r"(.*)", "fatal log: " + f.group(1))
     if m and not res["build_failed"]:
         res["crash"] = m.group(1)[:300]
     res["races"] = collect_races(racedir)
